@@ -5,9 +5,10 @@
 set -u
 export GOFLAGS=-mod=mod GOPROXY=off GOSUMDB=off
 D=$1
+export TMPDIR=$(mktemp -d /tmp/confirm-tmp.XXXXXX)  # the suite uses fixed names under TMPDIR
 WT=/tmp/confirm-wt-$$
 git -C /repo worktree add -q --detach "$WT" HEAD || exit 2
-trap 'git -C /repo worktree remove --force "$WT" >/dev/null 2>&1' EXIT
+trap 'git -C /repo worktree remove --force "$WT" >/dev/null 2>&1; rm -rf "$TMPDIR"' EXIT
 DEMO=${2:-}
 if [ -z "$DEMO" ]; then
   DEMO=$(grep -m1 -oE '(leveldb[/a-z_]*/[a-z_0-9]+_test\.go)' "$D/demo_test.go" || true)
